@@ -619,6 +619,83 @@ theorem fitRuns_isSome (rd : List α → List α → α) (conv : List (List α) 
   rw [fitRuns_eq]
   exact foldl_better_isSome ltInf hl _ (by simpa using hne)
 
+/-- the selection against a sentinel `T` (`min_inertia` starts at `T`; the code's `T` is `+∞`): what is
+kept is one of the runs, lies strictly below the sentinel and is minimal among all runs; nothing is kept
+exactly when no run lies below the sentinel -/
+theorem foldl_better_thr (T : α) (rs : List (Run α)) :
+    (∀ c, rs.foldl (better (ltThr T)) none = some c →
+       c ∈ rs ∧ c.inertia < T ∧ ∀ r ∈ rs, c.inertia ≤ r.inertia) ∧
+    (rs.foldl (better (ltThr T)) none = none ↔ ∀ r ∈ rs, ¬ r.inertia < T) := by
+  induction rs with
+  | nil => simp
+  | cons r rs ih =>
+    simp only [List.foldl_cons]
+    by_cases h : r.inertia < T
+    · have e : better (ltThr T) none r = some r := by simp [better, ltThr, h]
+      rw [e]
+      obtain ⟨b1, e1, l1, m1⟩ := foldl_better_some_min (ltThr T) rs r
+      obtain ⟨b2, e2, _, m2⟩ := foldl_better_some (ltThr T) rs r
+      rw [e1] at e2
+      have hb : b1 = b2 := Option.some.inj e2
+      subst hb
+      refine ⟨?_, ?_⟩
+      · intro c hc
+        rw [e1] at hc
+        have hc' : b1 = c := Option.some.inj hc
+        subst hc'
+        refine ⟨?_, lt_of_le_of_lt l1 h, ?_⟩
+        · rcases m2 with rfl | m2
+          · exact List.mem_cons_self
+          · exact List.mem_cons_of_mem _ m2
+        · intro q hq
+          rcases List.mem_cons.mp hq with rfl | hq
+          · exact l1
+          · exact m1 q hq
+      · rw [e1]
+        constructor
+        · intro hn; cases hn
+        · intro hall; exact absurd h (hall r List.mem_cons_self)
+    · have e : better (ltThr T) none r = none := by simp [better, ltThr, h]
+      rw [e]
+      obtain ⟨ih1, ih2⟩ := ih
+      refine ⟨?_, ?_⟩
+      · intro c hc
+        obtain ⟨m, lt, mn⟩ := ih1 c hc
+        refine ⟨List.mem_cons_of_mem _ m, lt, ?_⟩
+        intro q hq
+        rcases List.mem_cons.mp hq with rfl | hq
+        · exact le_of_lt (lt_of_lt_of_le lt (not_lt.mp h))
+        · exact mn q hq
+      · rw [ih2]
+        constructor
+        · intro hall q hq
+          rcases List.mem_cons.mp hq with rfl | hq
+          · exact h
+          · exact hall q hq
+        · intro hall q hq
+          exact hall q (List.mem_cons_of_mem _ hq)
+
+/-- `fitRuns` against a sentinel, in terms of the initial matrices -/
+theorem fitRuns_thr (rd : List α → List α → α) (conv : List (List α) → List (List α) → Bool)
+    (T : α) (xs : List (List α)) (budget : Nat) (inits : List (List (List α))) :
+    (∀ b, fitRuns rd conv (ltThr T) xs budget inits = some b →
+       b.inertia < T ∧ ∀ init ∈ inits, b.inertia ≤ (runOnce rd conv xs budget init).inertia) ∧
+    (fitRuns rd conv (ltThr T) xs budget inits = none ↔
+       ∀ init ∈ inits, ¬ (runOnce rd conv xs budget init).inertia < T) := by
+  rw [fitRuns_eq]
+  obtain ⟨h1, h2⟩ := foldl_better_thr T (inits.map (runOnce rd conv xs budget))
+  refine ⟨?_, ?_⟩
+  · intro b hb
+    obtain ⟨_, lt, mn⟩ := h1 b hb
+    exact ⟨lt, fun init hi => mn _ (List.mem_map.mpr ⟨init, hi, rfl⟩)⟩
+  · rw [h2]
+    constructor
+    · intro hall init hi
+      exact hall _ (List.mem_map.mpr ⟨init, hi, rfl⟩)
+    · intro hall r hr
+      obtain ⟨init, hi, rfl⟩ := List.mem_map.mp hr
+      exact hall init hi
+
 theorem list_range_sum {M : Type} [AddCommMonoid M] (f : Nat → M) (k : Nat) :
     ((List.range k).map f).sum = ∑ j ∈ Finset.range k, f j := by
   induction k with
